@@ -1,8 +1,8 @@
 """K3 (norm part): `util.norm_pattern` vs the Lean scanner model, and the C20 end-to-end search.
 
-Driver command: `norm <isBytes> <normalize> <raw> <uniDigits> <pattern> [name:<n>:<c|->]…`
-  uniDigits=1 : the model as the code is (`\\d` of a str regex accepts every Unicode decimal digit)
-  uniDigits=0 : the specification (`Spec/RawChars`: hex digits are ASCII) — used as oracle
+Driver command: `norm <isBytes> <normalize> <raw> <pattern> [name:<n>:<c|->]…`
+The model is proved equal to the token specification (`Spec/RawChars`) on every token list that
+meets the stated side conditions, so it also serves as the specification decoder in the search.
 """
 from __future__ import annotations
 import itertools
@@ -19,7 +19,7 @@ from framework import Failing
 warnings.simplefilter('ignore')
 
 ALPHA = '\\xuUN{}0178afn/*['
-RE_NAME = re.compile(r'\\N\{([^}]*)\}')
+RE_NAME = re.compile(r'(?=\\N\{([^}]*)\})')   # overlapping: every `\N{` start is a candidate
 CONFIGS = [(b, n, r) for b in (0, 1) for n in (0, 1) for r in (0, 1) if n or r]
 
 
@@ -49,8 +49,8 @@ def py_norm(util, p: str, isb: int, nz: int, raw: int) -> str:
         return 'exc ' + type(e).__name__
 
 
-def model_norm(drv: common.Driver, cases: list[tuple[str, int, int, int]], uni: int = 1) -> list[str]:
-    lines = [f'norm {b} {n} {r} {uni} {common.enc(p)}{lookup_fields(p) if "N" in p else ""}' for p, b, n, r in cases]
+def model_norm(drv: common.Driver, cases: list[tuple[str, int, int, int]]) -> list[str]:
+    lines = [f'norm {b} {n} {r} {common.enc(p)}{lookup_fields(p) if "N" in p else ""}' for p, b, n, r in cases]
     outs = drv.ask_many(lines)
     res = []
     for o in outs:
@@ -60,7 +60,7 @@ def model_norm(drv: common.Driver, cases: list[tuple[str, int, int, int]], uni: 
 
 
 def _compare(sr, util, drv, cases, keep=3):
-    outs = model_norm(drv, cases, 1)
+    outs = model_norm(drv, cases)
     for (p, b, n, r), mo in zip(cases, outs):
         sr.evaluations += 1
         if mo == 'err Surrogate':
@@ -154,7 +154,7 @@ def _names_for(decoded: str) -> list[str]:
 
 def search_e2e(ck, sr, drv, tier: str) -> None:
     """match(name, p, RAWCHARS) must equal match(name, decode(p)) (no RAWCHARS), where decode is the
-    *specification* decoder (token contract; ASCII hex digits); a decode error must be raised
+    *specification* decoder (token contract); a decode error must be raised
     by the real call as the same kind (SyntaxError / KeyError→LookupError)."""
     from wcmatch import fnmatch as F, glob as G, wcmatch as WM
     R = common.rng('C20-e2e')
@@ -187,10 +187,9 @@ def search_e2e(ck, sr, drv, tier: str) -> None:
             latin = all(ord(c) < 256 for c in p)
             isb = 1 if (latin and R.random() < 0.3) else 0
             cases.append((p, isb, 0, 1))
-        spec = model_norm(drv, cases, 0)
-        code_model = model_norm(drv, cases, 1)
+        spec = model_norm(drv, cases)
         seen = set()
-        for k, ((p, isb, _n, _r), sp, cm) in enumerate(zip(cases, spec, code_model)):
+        for k, ((p, isb, _n, _r), sp) in enumerate(zip(cases, spec)):
             if sp == 'err Surrogate':
                 continue
             seen.add((p, isb))
@@ -237,13 +236,11 @@ def search_e2e(ck, sr, drv, tier: str) -> None:
                 sr.histogram[key] = sr.histogram.get(key, 0) + 1
                 if obs != exp:
                     kid = None
-                    if sp != cm and re.search(r'[^\x00-\x7f]', p):
-                        kid = 'KF-D20'      # hex escape written with non-ASCII decimal digits is decoded
-                    elif fl & F.FORCEWIN and decoded is not None:
+                    if fl & F.FORCEWIN and decoded is not None:
                         # single pass (decode and `\/` rewriting by one scanner) vs decode, then rewrite:
                         # a `\/` that only exists after decoding escapes the Windows normalisation
-                        one = model_norm(drv, [(p, isb, 1, 1)], 1)[0]
-                        two = model_norm(drv, [(decoded, isb, 1, 0)], 1)[0]
+                        one = model_norm(drv, [(p, isb, 1, 1)])[0]
+                        two = model_norm(drv, [(decoded, isb, 1, 0)])[0]
                         if one != two:
                             kid = 'KF-D21'
                     ck.report(Failing(
